@@ -369,18 +369,37 @@ def is_wall(c):
 
 @rule('FLAG-MODEL', ['C01', 'C03'], floor=5)
 def flag_model(ctx):
-    """Finite model of the LZMA2 writer's reset flags, extracted from the code: starting from the
-    constructor's flag values and closing under the flag effects of every emitter/reset method (any
-    order), in every reachable flag state an emitted control byte requests a dictionary reset
-    (is in the reader's RESET set) if and only if the dictionary-reset flag is set."""
+    """Finite model of the LZMA2 writer's reset protocol, extracted from the code. State = the
+    writer's bool flags + one ghost bit ("the encoder's probability model was reset since the last
+    chunk that told the decoder to reset its state"). Starting from the constructor's flag values
+    and closing under the chunk-level operations (in any order), in every reachable state:
+      * an emitted control byte is in the reader's dictionary-RESET set iff the dict-reset flag is set;
+      * an LZMA chunk is emitted without a state reset only if the encoder model was not reset;
+      * no control byte outside the classes the reader accepts."""
     from lzlint.byteeval import StateEval
+    import itertools
     F = ctx.facts
     st = st_reader_info(F)
     if st is None:
         return ctx.anchor_missing('LZMA2Reader chunk-header decoder')
-    _, _, cs = st
+    fr, subj, cs = st
     RESET_ST = {v for v, d in cs.items() if d.get('reset')}
     INVALID_ST = {v for v, d in cs.items() if not d['ok']}
+    # values for which the reader resets / rebuilds its probability model
+    ser = StateEval(fr)
+    skey = expr_str(subj)
+    model_blocks = set()
+    for b, t, c in fr.calls():
+        if c.is_('LZMADecoder::reset'):
+            model_blocks.add(b)
+        for g in F.resolve_callee(c):
+            if g.self_adt == fr.self_adt and any(c2.is_('LZMADecoder::new') for _, _, c2 in g.calls()):
+                model_blocks.add(b)
+    SRESET_ST = set()
+    for v in range(0x80, 0x100):
+        for path, env in ser.run({skey: v}):
+            if ok_err_of_path(fr, path) != 'Err' and any(b in model_blocks for b in path):
+                SRESET_ST.add(v)
     ms = methods_of(F, 'LZMA2Writer')
     adt = F.adt('LZMA2Writer')
     if not ms or adt is None:
@@ -392,29 +411,41 @@ def flag_model(ctx):
     emit_blocks = {}
     for f, db, c in wc:
         emit_blocks.setdefault(f.path, {})[db] = c
-    # the dict-reset flag (see CTRL-SETS): guards the reset/non-reset uncompressed constants
     dflag = None
     for f, db, c in wc:
         if c in RESET_ST and c < 0x80:
             prov = Prov(f)
-            for s, pol, cond in guards_of(f, db, prov):
+            for s_, pol, cond in guards_of(f, db, prov):
                 sf = self_field_of(cond) if cond[0] in ('field', 'deref') else None
                 if sf and len(sf) == 1 and pol:
                     dflag = sf[0]
     if dflag is None:
         return ctx.violation('writer:no-dict-reset-flag', '-', 'cannot identify the dictionary-reset flag (fail closed)')
-    # methods with flag effects
-    movers = [f for f in ms if f.arg_count >= 1 and f.local_ty(1).startswith('&mut') and
-              any(name in flags for _, _, name, _ in self_field_stores(f))]
-    # initial states from the constructor aggregate
+    movers = {f.path: f for f in ms if f.arg_count >= 1 and f.local_ty(1).startswith('&mut') and
+              any(name in flags for _, _, name, _ in self_field_stores(f))}
+    # chunk-level operations: movers or direct callers of movers that are not themselves called by such a function
+    cand = {}
+    for f in ms:
+        if f.path in movers or any(g.path in movers for _, _, c in f.calls() for g in F.resolve_callee(c)):
+            if f.arg_count >= 1 and f.local_ty(1).startswith('&mut'):
+                cand[f.path] = f
+    inherent = {p: f for p, f in cand.items() if not (f.impl and f.impl.get('trait'))}
+    ops = []
+    for p, f in inherent.items():
+        callers = [o for q, o in inherent.items() if q != p and any(g.path == p for _, _, c in o.calls() for g in F.resolve_callee(c))]
+        # an emitter that is only reached through a sequencing function (which may reset the encoder first) is not an
+        # operation of its own: it is evaluated as part of its caller
+        if p in movers and any(o.path not in movers for o in callers):
+            continue
+        ops.append(f)
     init = set()
     for f in ms:
         prov = Prov(f)
         for bi, b in enumerate(f.blocks):
-            for s in b['stmts']:
-                if s['k'] == 'assign' and s['rv']['r'] == 'agg' and s['rv'].get('kind') == 'adt' and last_seg(s['rv']['adt']) == 'LZMA2Writer':
+            for s_ in b['stmts']:
+                if s_['k'] == 'assign' and s_['rv']['r'] == 'agg' and s_['rv'].get('kind') == 'adt' and last_seg(s_['rv']['adt']) == 'LZMA2Writer':
                     vals = {}
-                    for nm, o in zip(s['rv']['fields'], s['rv']['ops']):
+                    for nm, o in zip(s_['rv']['fields'], s_['rv']['ops']):
                         if nm not in flags:
                             continue
                         e = prov.operand(o)
@@ -425,84 +456,106 @@ def flag_model(ctx):
                             else:
                                 opts |= {0, 1}
                         vals[nm] = opts
-                    combos = [{}]
-                    for nm in flags:
-                        combos = [dict(c, **{nm: v}) for c in combos for v in sorted(vals.get(nm, {0, 1}))]
-                    for c in combos:
-                        init.add(tuple(c[nm] for nm in flags))
+                    for combo in itertools.product(*[sorted(vals.get(nm, {0, 1})) for nm in flags]):
+                        init.add(tuple(combo) + (1,))     # ghost: a new encoder model
     if not init:
         return ctx.anchor_missing('LZMA2Writer constructor aggregate')
-    selfname = 'self'
+    sn = 'self'
+    keys = ['%s.%s' % (sn, nm) for nm in flags] + ['ghost.R']
+
     def env_of(state):
-        return {'%s.%s' % (selfname, nm): v for nm, v in zip(flags, state)}
-    # effects
-    evals = {f.path: StateEval(f) for f in movers}
+        return dict(zip(keys, state))
+    evals = {}
+    bad = {}
+    stats = {'em': 0, 'tr': 0}
+
+    def eval_fn(f, env, depth=0):
+        """All final envs of f started in env (flags + ghost)."""
+        se = evals.setdefault(f.path, StateEval(f))
+        eb = emit_blocks.get(f.path, {})
+
+        def on_block(b, env):
+            if b in eb:
+                c = eb[b]
+                stats['em'] += 1
+                span = {c | x for x in range(0x20)} if c >= 0x80 else {c}
+                d = env.get('%s.%s' % (sn, dflag))
+                g = env.get('ghost.R')
+                k = None
+                if span & INVALID_ST:
+                    k = ('invalid', f.name, c)
+                elif d == 1 and not span <= RESET_ST:
+                    k = ('missing-reset', f.name, c)
+                elif d == 0 and span & RESET_ST:
+                    k = ('spurious-reset', f.name, c)
+                elif c >= 0x80 and g == 1 and not span <= SRESET_ST:
+                    k = ('missing-state-reset', f.name, c)
+                if k and k not in bad:
+                    bad[k] = (f, b, {kk: vv for kk, vv in env.items() if isinstance(kk, str)})
+                if c >= 0x80 and span <= SRESET_ST:
+                    env = dict(env)
+                    env['ghost.R'] = 0
+                    return env
+            return None
+
+        def on_call(b, t, env):
+            c = callee_of(t)
+            if not c:
+                return [env]
+            cal = Callee(c)
+            if cal.is_('LZMAEncoder::reset', 'LZMAEncoder::new'):
+                e2 = dict(env)
+                e2['ghost.R'] = 1
+                return [e2]
+            outs = []
+            for g in F.resolve_callee(cal):
+                if g.path in cand and g.path != f.path and depth < 3:
+                    for e3 in eval_fn(g, env, depth + 1):
+                        outs.append(e3)
+            return outs or [env]
+        res = []
+        for path, env2 in se.explore(env, on_call=on_call, on_block=on_block):
+            if ok_err_of_path(f, path) == 'Err':
+                continue
+            stats['tr'] += 1
+            res.append(env2)
+        return res
     seen = set(init)
     work = list(init)
-    nchecks = 0
-    bad = {}
-    trans = 0
     while work:
         st_ = work.pop()
-        for f in movers:
-            se = evals[f.path]
-            for path, env in se.run(env_of(st_)):
-                if ok_err_of_path(f, path) == 'Err':
-                    continue
-                trans += 1
-                # emitted constants on this path, with the flag state at emission = entry state for
-                # the first emission; evaluate each emission against the state right before it
-                eb = emit_blocks.get(f.path, {})
-                cur = dict(env_of(st_))
-                for b in path:
-                    if b in eb:
-                        c = eb[b]
-                        nchecks += 1
-                        span = {c | x for x in range(0x20)} if c >= 0x80 else {c}
-                        d = cur.get('%s.%s' % (selfname, dflag))
-                        k = None
-                        if span & INVALID_ST:
-                            k = ('invalid', f.name, c)
-                        elif d == 1 and not span <= RESET_ST:
-                            k = ('missing-reset', f.name, c)
-                        elif d == 0 and span & RESET_ST:
-                            k = ('spurious-reset', f.name, c)
-                        if k and k not in bad:
-                            bad[k] = (f, b, dict(zip(flags, st_)), dict(cur))
-                    cur = se._step(b, cur)
-                nxt = tuple(env.get('%s.%s' % (selfname, nm)) for nm in flags)
-                if None in nxt:
-                    # unknown flag value: split
-                    opts = [[0, 1] if v is None else [v] for v in nxt]
-                    import itertools
-                    nxts = list(itertools.product(*opts))
-                else:
-                    nxts = [nxt]
-                for n2 in nxts:
+        for f in ops:
+            for env2 in eval_fn(f, env_of(st_)):
+                nxt = tuple(env2.get(k) for k in keys)
+                opts = [[0, 1] if v is None else [v] for v in nxt]
+                for n2 in itertools.product(*opts):
                     if n2 not in seen:
                         seen.add(n2)
                         work.append(n2)
-    for (kind, fname, c), (f, b, st0, cur) in sorted(bad.items(), key=str):
+    for (kind, fname, c), (f, b, cur) in sorted(bad.items(), key=str):
         key = 'LZMA2Writer:%s:%s:0x%02X' % (fname, kind, c)
-        fl = ', '.join('%s=%s' % (k.split('.')[-1], v) for k, v in sorted(cur.items(), key=str) if isinstance(k, str))
+        fl = ', '.join('%s=%s' % (k.split('.')[-1], v) for k, v in sorted(cur.items()))
         if kind == 'spurious-reset':
-            ctx.violation(key, f.loc(b), 'in reachable flag state {%s} `%s` emits control 0x%02X which makes the decoder reset '
-                          'its dictionary although `%s` is clear: the encoder keeps matching against history the decoder '
-                          'dropped (undecodable stream)' % (fl, fname, c, dflag))
+            ctx.violation(key, f.loc(b), 'in reachable state {%s} `%s` emits control 0x%02X which makes the decoder reset its dictionary '
+                          'although `%s` is clear: the encoder keeps matching against history the decoder dropped (undecodable '
+                          'stream)' % (fl, fname, c, dflag))
         elif kind == 'missing-reset':
-            ctx.violation(key, f.loc(b), 'in reachable flag state {%s} `%s` emits control 0x%02X without the dictionary reset '
-                          'that `%s` requests' % (fl, fname, c, dflag))
+            ctx.violation(key, f.loc(b), 'in reachable state {%s} `%s` emits control 0x%02X without the dictionary reset that `%s` '
+                          'requests' % (fl, fname, c, dflag))
+        elif kind == 'missing-state-reset':
+            ctx.violation(key, f.loc(b), 'in reachable state {%s} `%s` emits LZMA control 0x%02X (no state reset) although the encoder\'s '
+                          'probability model was reset since the last chunk that reset the decoder\'s: encoder and decoder models '
+                          'diverge (undecodable stream)' % (fl, fname, c))
         else:
             ctx.violation(key, f.loc(b), 'writer can emit control 0x%02X which the reader rejects' % c)
-    badstates = {tuple(st0[n] for n in flags) for (_, _, st0, _) in bad.values()}
+    badstates = set()
     for stt in sorted(seen):
-        if stt in badstates:
-            continue
-        ctx.ok('state:' + ''.join(str(x) for x in stt), '-', 'reachable flag state {%s}: every emitted control byte '
-               'agrees with `%s`' % (', '.join('%s=%d' % (n, v) for n, v in zip(flags, stt)), dflag))
-    ctx.note('FLAG-MODEL: flags %s, %d initial, %d reachable states, %d path transitions, %d emissions checked' % (
-        flags, len(init), len(seen), trans, nchecks))
-    if nchecks == 0:
+        ctx.ok('state:' + ''.join(str(x) for x in stt), '-', 'reachable state {%s, model_reset=%d}' % (
+            ', '.join('%s=%d' % (n, v) for n, v in zip(flags, stt)), stt[-1]))
+    ctx.note('FLAG-MODEL: flags %s + ghost, ops %s, %d initial, %d reachable states, %d path transitions, %d emissions checked; '
+             'reader RESET=%s STATE-RESET=%s' % (flags, [f.name for f in ops], len(init), len(seen), stats['tr'], stats['em'],
+                                                 _ranges(RESET_ST), _ranges(SRESET_ST)))
+    if stats['em'] == 0:
         ctx.violation('LZMA2Writer:no-emission', '-', 'model explored no control-byte emission (fail closed)')
 
 
